@@ -761,7 +761,11 @@ class Engine(object):
         n = max(1, min(8 if spec.get('many') else 4, int(spec.get('n', 1))))
         rcpts = ['r%d@%s.example' % (i, tag) for i in range(n)]
         if spec.get('dup') and n >= 2:
-            rcpts[-1] = rcpts[0]          # the same address given in two RCPT commands
+            # the same address given in two RCPT commands: first and last, or (dup == 2) the first two, ahead of the others
+            if spec['dup'] == 2 and n >= 3:
+                rcpts[1] = rcpts[0]
+            else:
+                rcpts[-1] = rcpts[0]
             self.labels.add('repeated-recipient')
         sender = 's@%s.example' % tag if spec.get('sender', True) else ''
         env = Envelope(sender, list(rcpts))
